@@ -3,6 +3,31 @@
 // linearizable) and C18 (contents equal a reference at every quiescent point).
 // DESIGN.md §3 C03 / C18.  Built in two flavours (ship, tsm), see §2.9.
 //
+// gp.property selects the workload shape:
+//   C03  one container, optional sequential prefill (fillers), then 2-4 threads x
+//        3-10 ops {emplace, insert, try_emplace, index(operator[]), find,
+//        contains, count}; history oracle + quiescent clauses.
+//        --mode m (0..7): container = m/4 (0 growing set/map, 1 fixed table),
+//        element = m%4 (0 u64, 1 string, 2 move-only element, 3 map u64->counted
+//        with a move-only constructor argument); -1 = mixed.
+//        --mode 8: EXPERIMENTAL, tsm flavour only: happens-before detector on the
+//        value storage for every hash layout.  Known to raise false `race`
+//        reports (simulator keeps release clocks per 4-byte unit, see run03);
+//        the default mix only switches the detector on where it is exact.
+//   C18  two containers (current/other) and a sequence of phases; a phase is one
+//        structural operation by the main thread alone or a batch of
+//        w_emplace/w_find by 1-3 threads; after every phase the touched
+//        containers are compared with a std::map reference.
+//        --mode m (0..5): element kind (0 set<u64>, 1 set<string>, 2
+//        set<move-only>, 3 map<u64,counted>, 4 map<string,string>, 5
+//        map<u64,move-only>); -1 = mixed.  cfg "report"=1: size() mismatches are
+//        collected and reported at the end of the history (if no other clause
+//        failed), so that the remaining clauses are still evaluated behind a
+//        wrong size(); every clause is evaluated in every run either way.
+// The hasher maps key id -> (group base, 7-bit tag) drawn from 1-4 bases and
+// 1-3 tags (cfg hseed/nbase/ntag): equal tags and one crowded, wrapping
+// 16-slot window are the norm.
+//
 // Rule 11 (side channels): no simulated thread ever acts on something another
 // thread obtained from the API.  History records are only evaluated after the
 // workers were joined; the only cross-thread reads during the concurrent phase
@@ -1026,7 +1051,6 @@ void run18(const Plan& p) {
   maxph = std::min<int64_t>(maxph, 64);
   rescan();
   compare(0); compare(1);
-  int mop = 100000;
   int spawned = 0;
   for (int64_t ph = 0; ph <= maxph; ph++) {
     bool touched[2] = {false, false};
@@ -1163,7 +1187,6 @@ void run18(const Plan& p) {
     rescan();
     for (int b = 0; b < 2; b++) if (touched[b]) compare(b);
   }
-  (void)mop;
   drop_tables();
   delete box[0];
   delete box[1];
